@@ -102,7 +102,7 @@ var assumptions = []string{
 	"A4 GetKeyPair returns an index < len(validators); GetValidators returns a non-empty list; TimestampIncrement > 0",
 	"A5 default 64-bit build (int is 64 bits)",
 	"A6 the Go type checker (go/types) and the AST are a faithful view of the compiled program",
-	"A7 no received payload carries this node's own validator index unless this node built it",
+	"A7 (withdrawn: a node that lost its state receives its own payloads back from recovery messages; the walker now splits the path at every store into a sender's slot)",
 	"A8 payload constructors (Config.New*) return non-nil objects",
 	"A9 a payload whose Type() is PrepareRequestType has a non-nil GetPrepareRequest() (type tag agrees with body)",
 }
